@@ -41,10 +41,15 @@ def bins_contract(interp, args, kwargs):
 
 
 def blank_feature(**fields):
-    """A Feature instance built without running __init__ (fields set by the harness)."""
+    """A Feature instance in a chosen state: built by the real __init__ with its defaults, then the fields the harness
+    reasons about are set directly (they may be symbolic, which __init__ would try to convert)."""
     import gffutils.feature as F
     from gffutils import constants
     f = object.__new__(F.Feature)
+    try:
+        F.Feature.__init__(f)           # the REAL constructor first: instance attributes a later version adds exist
+    except Exception:
+        pass
     d = dict(seqid="chr1", source=".", featuretype="gene", start=None, end=None, score=".", strand="+",
              frame=".", attributes=None, extra=[], bin=None, id=None, dialect=constants.dialect,
              file_order=None, keep_order=False, sort_attribute_values=False)
